@@ -7,7 +7,7 @@ from . import core
 CHECKS = {
     "C13": dict(
         technique="runtime monitoring: exhaustive operator/value matrix executed through run_checks, judged by a Python reference oracle",
-        text="Every ordered pair of a 46-value universe x 5 comparison operators x both polarities x {query RHS, literal RHS, literal-bound variable as LHS}, random operands beyond the universe (random 64-bit integers and neighbours, random-bit-pattern doubles, unicode strings), the in-list (incl. a literal on the left and a document list on the right), "
+        text="Every ordered pair of a 46-value universe x 5 comparison operators x both polarities x {query RHS, literal RHS, literal-bound variable as LHS}, random operands beyond the universe (random 64-bit integers and neighbours, random-bit-pattern doubles, unicode strings), the in-list (incl. a literal on the left and a document list on the right - as a list value, as its elements, through a query-bound variable, under `some`), "
              "range-bracket and regex forms are executed against the real evaluator and each verdict is compared with Python "
              "semantics on the model values. Exhaustive on that finite universe; says nothing outside it.",
         note="Trusts: Python int/float/str comparison and re.search as the reference; json round trip of the universe. "
@@ -79,7 +79,7 @@ CHECKS["C06"] = dict(
 
 CHECKS["C05"] = dict(
     technique="runtime monitoring: repeated-execution differential monitor (fresh processes, rotated environments, in-process repetition)",
-    text="27 command/output modes (validate structured json/yaml/sarif/junit, plain json/yaml, print-json, console variants, parse-tree, test in "
+    text="29 command/output modes (incl. two runs that end in an evaluation error naming the rules of the file - stderr compared; validate structured json/yaml/sarif/junit, plain json/yaml, print-json, console variants, parse-tree, test in "
          "4 renderings, rulegen (template with values and property names that differ only in letter case or type), and 4 modes of function rules: parse_epoch over 12 timestamp spellings incl. zone-less and DST-gap ones, case mapping, "
          "conversions, join/regex_replace; 2 console modes on Terraform-plan-shaped data; 3 modes writing to an --output file that held other content before) are each run 5 (quick) / 8 (thorough) times as fresh processes of the shipped binary - fresh hash seeds - under "
          "rotated TZ (tzdata names and POSIX strings)/LANG/HOME/COLUMNS/NO_COLOR/CLICOLOR_FORCE/RUST_BACKTRACE/cwd/pipe-vs-file, and payload modes 5 times inside one process; exit codes must be "
@@ -150,7 +150,7 @@ CHECKS["C19"] = dict(
 CHECKS["C18"] = dict(
     technique="runtime monitoring: reference-model monitor (independent Python implementation of docs/FUNCTIONS.md) over observed function results",
     text="`let r = f(args)` is evaluated for every function x 23 argument queries (unicode, numeric strings, mixed-type lists, unresolved members first / in the middle / last / only, empty "
-         "selections) x literal/query/variable/nested forms, substring over 13x13 offsets (incl. -1, len, >=65536), join delimiters and empty members, "
+         "selections) x literal/query/variable/nested/file-level-let/call-argument forms, substring over 13x13 offsets (incl. -1, len, >=65536), join delimiters and empty members, "
          "regex_replace full/partial/no match, 45 boolean/integer/float spellings one by one, random literals, and json round trips on random documents; the result list is read back through a failing "
          "clause on %r and compared, type-strictly and in order, with the reference; unparsable input must raise an error, never a value.",
     note="The reference abstains (UNSPEC, counted in evidence) where the documentation is silent; Python re / urllib / float parsing are trusted on the restricted inputs.",
